@@ -897,10 +897,22 @@ def provably_equal(A, B):
     return True
 
 
+def _as_slice(x):
+    """(base, lo, hi) view of an opaque segment or a slice of one"""
+    if isinstance(x, Sl):
+        return x.base, x.lo, x.hi
+    if isinstance(x, (O, F)):
+        return x, I0, x.len
+    return None
+
+
 def _seg_provably_eq(a, b):
     if a.key() == b.key():
         return True
     c = cur()
+    if (isinstance(a, Sl) and isinstance(b, (O, F))) or (isinstance(b, Sl) and isinstance(a, (O, F))):
+        (ba, la, ha), (bb, lb, hb) = _as_slice(a), _as_slice(b)
+        return _seg_provably_eq(ba, bb) and c.valid(z3.And(la == lb, ha == hb))
     if isinstance(a, K) and isinstance(b, K):
         return a.b == b.b
     if isinstance(a, Z) and isinstance(b, Z):
@@ -1112,6 +1124,9 @@ def _atom_eq(a, b):
         return _simp(z3.And(*[a.byte(z3.IntVal(j)) == b.byte(z3.IntVal(j)) for j in range(L)]))
     if isinstance(a, O) and isinstance(b, O) and a.params and a.same(b):
         return True
+    if (isinstance(a, Sl) and isinstance(b, (O, F))) or (isinstance(b, Sl) and isinstance(a, (O, F))):
+        if _seg_provably_eq(a, b):
+            return True
     if isinstance(a, Sl) and isinstance(b, Sl) and (a.base.key() == b.base.key() or _seg_provably_eq(a.base, b.base)):
         c = cur()
         if c.valid(a.lo == b.lo):
